@@ -51,9 +51,13 @@ def gen_workload(r, lag, nm=None):
     ts = 999900 + r.randrange(4) if not lag or r.random() < 0.5 else 1000000 + r.randrange(3)
     if r.random() < 0.25:
       ts += r.choice([0.25, 0.5, 0.75])      # sub-second clients
+    if r.random() < 0.05:
+      ts = r.choice([1727864000000, 253402300800, 10 ** 15]) + r.randrange(2)       # milliseconds, far-future garbage
     ops.append(('store', r.choice(metrics), ts))
     if r.random() < 0.3:
       ops.append(('sleep', r.choice([0.05, 0.6, 1.2, 2.5])))
+    if r.random() < 0.12:
+      ops.append(('query', r.choice(metrics + ['never.stored'])))     # graphite-web asks the cache for a series
   c = r.random()
   if c < 0.4:
     ops.append(('sleep', r.choice([0.3, 1.5, 2.2])))      # writer goes idle, then a late store right before the stop
